@@ -22,8 +22,13 @@ class Source(object):
         self.log = []          # (op index, n, value)
         self.op = -1
         self.count = 0
+        self.fail_at = None          # index of the draw that fails (fault injection)
+        self.fail_with = NotImplementedError
 
     def __call__(self, n):
+        if self.fail_at is not None and self.count == self.fail_at:
+            self.count += 1
+            raise self.fail_with('injected: no randomness source')
         if self.mode == 'record':
             v = _REAL_URANDOM(n)
         else:
@@ -82,14 +87,45 @@ class Prop(object):
                 u.append(('hist', {'prefix': [a, b], 'depth': depth, 'seed': seed}))
         for a in range(n):
             u.append(('hist', {'prefix': [a], 'depth': 1, 'seed': seed}))
+        for a in range(n):
+            u.append(('nosource', {'op': a}))
         return u
 
     def run_case(self, check, case):
         R.set_s2k_count(0)
         try:
-            return self.c_hist(case)
+            return self.c_nosource(case) if check == 'nosource' else self.c_hist(case)
         finally:
             os.urandom = _REAL_URANDOM
+
+    def c_nosource(self, case):
+        """Fault enumeration on the random source: for every operation of the menu and every one of its draws, that draw fails (os.urandom raising
+        NotImplementedError - its documented way of saying that no source of randomness was found - or OSError). The operation must fail with it:
+        no ciphertext, no protected key made with something else in place of the randomness it could not get."""
+        import pgpy
+        from pgpy.constants import SymmetricKeyAlgorithm, HashAlgorithm
+        r = Res()
+        op = self._menu()[case['op']]
+        # how many draws the operation makes when nothing fails
+        src0 = Source('script', b'count')
+        probs0 = self._run(r, [op], 'script', b'count', source=src0)
+        ndraws = src0.count
+        for k in range(ndraws):
+            for exc in (NotImplementedError, OSError):
+                if case.get('only') is not None and case['only'] != [k, exc.__name__]:
+                    continue
+                r.states += 1
+                r.transitions += 1
+                src = Source('script', b'fault')
+                src.fail_at, src.fail_with = k, exc
+                made = self._run(r, [op], 'script', b'fault', source=src, want_output=True)
+                oc = 'raised' if made is None else 'completed'
+                r.outcomes['nosource:' + oc] += 1
+                if made is not None:
+                    r.viol('nosource', {'kind': 'completed-without-randomness', 'op': op[0]}, dict(case, only=[k, exc.__name__]),
+                           'operation %s completed although draw #%d of %d from the random source failed with %s' % (op[:3], k + 1, ndraws, exc.__name__))
+        r.samples.append({'operation': list(op), 'draws': ndraws})
+        return r
 
     # ---------------------------------------------------------------------------------------------
     def c_hist(self, case):
@@ -128,11 +164,12 @@ class Prop(object):
         kB, rB = K.pgpy_cert('rsa1024a', uid='B <b@example.org>')
         return msgs, {'kA': (kA, [rA, K.raw('cv25519a', K.T0)]), 'kB': (kB, [rB])}
 
-    def _run(self, r, ops, mode, label):
-        """Execute one history under one source; returns [(kind, detail)]."""
+    def _run(self, r, ops, mode, label, source=None, want_output=False):
+        """Execute one history under one source; returns [(kind, detail)].  want_output: returns None if the (single) operation raised, else a
+        non-None marker - used by the fault injection on the random source."""
         import pgpy
         from pgpy.constants import SymmetricKeyAlgorithm, HashAlgorithm
-        src = Source(mode, label)
+        src = source or Source(mode, label)
         msgs, keys = self._objs()
         os.urandom = src
         probs = []
@@ -224,9 +261,14 @@ class Prop(object):
                     pass
         except Exception as e:
             import traceback
+            if want_output:
+                os.urandom = _REAL_URANDOM
+                return None
             probs.append(('exception', 'operation raised %r %s' % (e, traceback.format_exc()[-300:])))
         finally:
             os.urandom = _REAL_URANDOM
+        if want_output:
+            return 'completed'
         if mode == 'script' and not probs:
             # under a scripted source the random fields are exactly the stream values: re-running gives identical fields, a different
             # stream gives different ones (checked by claim(): every field equals a value of *this* stream drawn in *this* operation)
